@@ -215,6 +215,14 @@ pub fn run(ctx: &RunCtx) -> i32 {
                 for mac in [Mac::Good, Mac::Bad] {
                     let bytes = ref_encode_with(&lm, Some(&raw), &vec![mac; len]);
                     relations(&bytes, "kind-sequence", &decs, &mut r);
+                    // sequences up to length 3 (they contain attributes behind the integrity / fingerprint attributes) also
+                    // through every construction route of every configuration
+                    if len <= 3 {
+                        let routes = crate::cu::all_routes(Some(&key), &crate::cu::all_opts());
+                        let replay = || json!({"kind": "bytes", "bytes": hex(&bytes), "sequence": format!("{:?}", kinds)});
+                        let n = crate::cu::routes_agree(&routes, &bytes, &mut r, &replay);
+                        r.add_extra("decoder_construction_routes_compared", n);
+                    }
                 }
                 r.sym("kind-sequences");
                 shared.merge(r);
@@ -341,7 +349,7 @@ pub fn run(ctx: &RunCtx) -> i32 {
         rep,
         Finish {
             level: "exploration",
-            rule: format!("{} seeds (menu messages x tails, RFC 5769 vectors, messages with unknown comprehension-required / -optional attributes of 0..5 value bytes), every single-fault mutant of each (bit flips only for seeds <=80 bytes in the quick tier), and every {{O,MI,SHA,FP}} sequence up to length 5 (6 thorough) with all-correct and all-wrong checksum values; plus the offset family (three unknown-attribute bodies x three tails behind a filler at every 4-aligned body offset 0..=4200 (thorough 16,400), around multiples of 4096 (1024) and at every offset 65,300..=65,532); valid messages with one more attribute appended after their (verifying) integrity / fingerprint tail - well formed, malformed in value, or announcing more bytes than remain; messages with two or three unknown attributes whose values collide under cheap digests (equal length and CRC-32, swapped bytes, reversed, identical; equal and different types); every seed also decoded through every construction route of every configuration (builder calls in every order, a repeated call, clones of the decoder and of the context, DecoderContext::default(), MessageDecoder::default()), which must agree with the canonical decoder; each byte string decoded under all 16 option combinations and without context, results compared pairwise against the five stated relations. Non-trivial = distinct byte string for which at least one not-ignore configuration decoded successfully", n_seeds),
+            rule: format!("{} seeds (menu messages x tails, RFC 5769 vectors, messages with unknown comprehension-required / -optional attributes of 0..5 value bytes), every single-fault mutant of each (bit flips only for seeds <=80 bytes in the quick tier), and every {{O,MI,SHA,FP}} sequence up to length 5 (6 thorough) with all-correct and all-wrong checksum values; plus the offset family (three unknown-attribute bodies x three tails behind a filler at every 4-aligned body offset 0..=4200 (thorough 16,400), around multiples of 4096 (1024) and at every offset 65,300..=65,532); valid messages with one more attribute appended after their (verifying) integrity / fingerprint tail - well formed, malformed in value, or announcing more bytes than remain; messages with two or three unknown attributes whose values collide under cheap digests (equal length and CRC-32, swapped bytes, reversed, identical; equal and different types); every seed and every kind sequence up to length 3 also decoded through every construction route of every configuration (builder calls in every order, a repeated call, clones of the decoder and of the context, DecoderContext::default(), MessageDecoder::default()), which must agree with the canonical decoder; each byte string decoded under all 16 option combinations and without context, results compared pairwise against the five stated relations. Non-trivial = distinct byte string for which at least one not-ignore configuration decoded successfully", n_seeds),
             assumptions: vec!["raw value bytes of unknown attributes are taken from the independent TLV reader".into()],
             required_symbols: vec!["seeds", "kind-sequences", "offset-family", "decoder-construction-routes", "colliding-unknown-values", "attribute-after-the-tail", "unknown-data-compared", "bit-flip", "attribute-move"],
             min_outcomes: 2,
